@@ -672,9 +672,12 @@ def _loop_first_line(k) -> tuple[int, int]:
     cname, mname = k.func.split('.')
     fn = mod.method(k.cls or cname, mname)[1]
     for st in fn.body:
-        if isinstance(st, ast.For) and isinstance(st.iter, ast.Call) and getattr(st.iter.func, 'id', None) == 'range':
+        if k.loop_over == 'while':
+            if isinstance(st, ast.While):
+                return fn.lineno, st.body[0].lineno
+        elif isinstance(st, ast.For) and isinstance(st.iter, ast.Call) and getattr(st.iter.func, 'id', None) == 'range':
             return fn.lineno, st.body[0].lineno
-    raise LookupError(f'{k.func}: no range loop')
+    raise LookupError(f'{k.func}: no such loop')
 
 
 def _snap_obj(o):
@@ -701,7 +704,7 @@ def _snap_obj(o):
     return out
 
 
-def trace_loop(code, body_line: int, run, objs=('pt', 'perf', 'perf_end')):
+def trace_loop(code, body_line: int, run, objs=('pt', 'perf', 'perf_end'), self_attrs=()):
     """Runs `run()`; for every activation of `code` records the state at each arrival at `body_line` (= the start of one loop
     iteration): numeric locals and the numeric attributes of the objects named in `objs`, plus `self`. Returns a list of
     activations, each a list of snapshots."""
@@ -711,7 +714,13 @@ def trace_loop(code, body_line: int, run, objs=('pt', 'perf', 'perf_end')):
         def local(frame, event, arg):
             if event == 'line' and frame.f_lineno == body_line:
                 loc = frame.f_locals
-                s = {'$locals': {n: float(v) for n, v in loc.items() if _numeric(v) and np.ndim(v) == 0}, '$self': loc.get('self')}
+                s = {'$locals': {n: float(v) for n, v in loc.items() if _numeric(v) and np.ndim(v) == 0}, '$self': loc.get('self'),
+                     '$selfattrs': {}}
+                for a in self_attrs:
+                    try:
+                        s['$selfattrs'][a] = float(_chain(loc.get('self'), a))
+                    except Exception:  # noqa: BLE001
+                        pass
                 for o in objs:
                     if o in loc and loc[o] is not None:
                         s[o] = _snap_obj(loc[o])
@@ -771,21 +780,28 @@ def check_loops(ctx, files: set[str] | None = None, flights: int = 6) -> dict:
         except Exception as e:
             ctx.diverge('kernel scenario', {'group': func}, f'{type(e).__name__}: {e}')
             continue
+        is_while = ks[0].loop_over == 'while'
+        self_attrs = sorted({key[5:] for k in ks for key in g.attr_keys.get(k.name, []) if key.startswith('self.')}
+                            | {k.target[5:] for k in ks if k.target.startswith('self.')})
         done = 0
-        for _ in range(flights * 4):
+        for _ in range(flights * 6):
             if done >= flights:
                 break
             case = L.gen_case(rng, n_choices=[3, 5, 7, 12])
-            case['iterate'] = False
+            case['iterate'] = is_while
+            if is_while:
+                case['max_iters'], case['tol'] = 8, 1e-3
             try:
                 holder = {}
-                acts = trace_loop(code, body_line, lambda: holder.update(res=L.run_flight(case)))
+                acts = trace_loop(code, body_line, lambda: holder.update(res=L.run_flight(case)), self_attrs=self_attrs)
             except Exception as e:  # noqa: BLE001
                 ctx.count('loop_scenario_error:' + type(e).__name__)
                 continue
-            if not holder.get('res', {}).get('ok'):
+            if not holder.get('res', {}).get('ok') and not is_while:
                 ctx.count('loop_scenario_refused')
                 continue
+            if is_while and not any(len(a) >= 2 for a in acts):
+                continue                                 # converged at once (or refused before a second pass): nothing to compare
             done += 1
             for act in acts:
                 for before, after in zip(act, act[1:]):
@@ -806,6 +822,8 @@ def _compare_iteration(ctx, g, ks, before, after, sm, seen):
             if root == 'pt':
                 return before['pt'][rest]
             if root == 'self':
+                if rest in before.get('$selfattrs', {}):
+                    return before['$selfattrs'][rest]
                 return _chain(selfobj, rest)
             if root in after and isinstance(after[root], dict):
                 return after[root][rest]
@@ -819,12 +837,14 @@ def _compare_iteration(ctx, g, ks, before, after, sm, seen):
                 if name in cut_attr_inv:                       # e.g. ground_speed = pt.ground_speed as this iteration set it
                     root, _, rest = cut_attr_inv[name].partition('.')
                     xs.append(f2u(float(after[root][rest])))
-                elif name in before['$locals'] and name in ('i',):   # the loop variable of THIS iteration
-                    xs.append(f2u(before['$locals'][name]))
+                elif name in before['$locals'] and (name in ('i',) or k.loop_over == 'while'):
+                    xs.append(f2u(before['$locals'][name]))      # the loop variable / what a `while` pass knows when it starts
                 else:
                     xs.append(f2u(after['$locals'][name]))
             tgt = k.target
-            if '.' in tgt:
+            if tgt.startswith('self.'):
+                want = float(after['$selfattrs'][tgt[5:]])
+            elif '.' in tgt:
                 root, _, rest = tgt.partition('.')
                 want = float(after[root][rest])
             else:
@@ -960,3 +980,73 @@ def _run_vec(ctx, g, k, fn, args, kwargs, sm, seen):
             ctx.diverge(f'kernel {k.name} (vector translation of {k.file}:{k.func}) vs implementation',
                         {'kernel': k.name, 'inputs': {n: (np.asarray(v).tolist() if isinstance(v, np.ndarray) else v) for n, v in ns.items() if n != 'self'}},
                         f'implementation {want[:8]!r} vs translated kernel {have[:8]!r}')
+
+
+def check_fly_iteration(ctx, flights: int = 6) -> dict:
+    """Validates `iter_mass_residual` (the residual `Builder._fly_iteration` returns): real flights, the frame of `_fly_iteration`
+    observed at its return (the trajectory's last aircraft mass, the builder's starting mass and trip fuel, the residual)."""
+    from harness import c0217_lib as L
+
+    g, errors = pykern.translate_all()
+    k = next((x for x in pykern.SYM_KERNELS if x.name == 'iter_mass_residual'), None)
+    summary = ctx.extra.setdefault('kernels', {})
+    sm = summary.setdefault('fly_iteration', {'points': 0, 'mismatches': 0})
+    if k is None:
+        return sm
+    if k.name in errors:
+        ctx.broken_obligation(f'kernel translator: {errors[k.name]}')
+        return sm
+    stale = k.name in pykern.LAST_STALE
+    _ensure_config()
+    import AEIC.trajectories.builders.legacy as legacy_mod
+
+    code = _unwrap(legacy_mod.LegacyBuilder._fly_iteration).__code__
+    rng = make_rng(ctx.pid, ctx.seed, 'fly-iteration-kernel')
+    snaps: list = []
+
+    def local(frame, event, arg):
+        if event == 'return' and arg is not None:      # (a frame left by an exception also reports 'return', with arg None)
+            loc = frame.f_locals
+            try:
+                snaps.append({'final_mass': float(loc['traj'].aircraft_mass[-1]), 'want': float(loc['mass_residual']),
+                              'self.starting_mass': float(loc['self'].starting_mass), 'self.total_fuel_mass': float(loc['self'].total_fuel_mass)})
+            except Exception as e:  # noqa: BLE001
+                snaps.append({'err': f'{type(e).__name__}: {e}'})
+        return local
+
+    def tracer(frame, event, arg):
+        return local if (event == 'call' and frame.f_code is code) else None
+
+    for i in range(flights):
+        case = L.gen_case(rng, n_choices=[3, 5, 7])
+        case['iterate'] = bool(i % 2)
+        old = sys.gettrace()
+        sys.settrace(tracer)
+        try:
+            L.run_flight(case)
+        except Exception:  # noqa: BLE001
+            pass
+        finally:
+            sys.settrace(old)
+    ops, wants = [], []
+    for s_ in snaps:
+        if 'err' in s_:
+            if stale:
+                ctx.count('source_tie_stale_unobservable:' + k.name)
+            elif 'mass_residual' in s_['err'] or 'traj' in s_['err']:
+                ctx.diverge(f'kernel {k.name}', {'kernel': k.name}, 'frame of _fly_iteration not observable: ' + s_['err'])
+            continue
+        attrs = {key: f2u(s_[key]) for key in g.attr_keys.get(k.name, []) if key in s_}
+        ops.append({'op': 'kern.eval', 'name': k.name, 'attrs': attrs, 'pts': [{'x': [f2u(s_['final_mass'])], 'b': []}]})
+        wants.append(s_['want'])
+    if ops:
+        for w, got in zip(wants, ctx.driver.outs(ops)):
+            have = u2f(got[0])
+            sm['points'] += 1
+            ctx.evaluations += 1
+            if not close(w, have, RTOL, 1e-300):
+                sm['mismatches'] += 1
+                if sm['mismatches'] <= 3:
+                    ctx.diverge(f'kernel {k.name} (residual of Builder._fly_iteration) vs implementation', {'kernel': k.name},
+                                f'implementation {w!r} vs translated kernel {have!r}')
+    return sm
